@@ -11,18 +11,24 @@ import (
 
 func (s *State) LoginEnable(pass string, cfg *program.Config) {
 	var bannerLines string
+	// Collect lines of banner.
+	// Ignore last line with prompt of ssh or of device,
+	// because it shows name of user or name of device.
+	addBanner := func(out string) {
+		bannerLines += out[:strings.LastIndex(out, "\n")+1]
+	}
 	conn := s.Conn
 	out := conn.WaitLogin(`(?i)password:|\(yes/no.*\)\?`)
 	if strings.HasSuffix(out, "?") {
 		out = conn.IssueCmd("yes", `(?i)password:`)
 	}
-	bannerLines += out
+	addBanner(out)
 	// Look for prompt. Ignore prompt lines with whitespace or multiple
 	// hash that may occur in lines of banner.
 	waitPrompt := func(enter, suffix string) bool {
 		stdPrompt := `\n\r?[^#> ]+[>#] ?$`
 		out = conn.IssueCmd(enter, `(?i)password:|`+stdPrompt)
-		bannerLines += out
+		addBanner(out)
 		out = strings.TrimSuffix(out, " ")
 		return strings.HasSuffix(out, suffix)
 	}
